@@ -97,7 +97,7 @@ class Journal(object):
             struct.pack_into('>I', blk, self.bs - 4, 0)
             struct.pack_into('>I', blk, self.bs - 4, crc32c(self.seed, bytes(blk)))
 
-    def add_txn(self, items, commit=True, ctime=1000, seq=None, t=None):
+    def add_txn(self, items, commit=True, ctime=1000, seq=None, t=None, v1_unused=False):
         """items: ('R', [blocknr...]) | ('D', [(blocknr, payload), ...]).  One transaction with sequence next_seq."""
         f = self.fmt
         seq = self.next_seq if seq is None else seq
@@ -164,7 +164,7 @@ class Journal(object):
         if commit:
             c = bytearray(self.bs)
             c[0:12] = hdr(BT_COMMIT, seq)
-            if f.csum == 'v1':
+            if f.csum == 'v1' and not v1_unused:        # (v1_unused: checksum type, size and value all zero = "no checksum recorded", which the format allows)
                 c[12] = 1; c[13] = 4
                 struct.pack_into('>I', c, 16, crc_v1)
             struct.pack_into('>QI', c, 48, ctime, 0)
